@@ -330,8 +330,11 @@ def verifyLoop (m : OvfMode) (common : List String) (c : Int) :
     -- a verifier that supplied a registry rejects a proof (or key set) that cannot be checked
     if !nrActive && vc.hasRegistry then .err else
     (if nrActive then sp.nrTaus else Outcome.ok []).bind fun nrItems =>
-    (commonPass common sp.eq seen common).bind fun seen' =>
     let unrevealed := unrevealedOf vc.schema vc.nonSchema vc.req.revealed
+    -- a declared common attribute must be one of the hidden exponents of this sub-proof: an
+    -- entry of `eq_proof.m` for any other name takes no part in the equation (repaired aad0576)
+    if !(common.all fun a => unrevealed.contains a) then .err else
+    (commonPass common sp.eq seen common).bind fun seen' =>
     (verifyPrimaryProof vc.o m vc.pk sp.eq sp.ne c unrevealed).bind fun ts =>
     (verifyLoop m common c sps vcs seen').map fun rest =>
       nrItems ++ ts.map (fun g => Item.bytes (vc.o.enc g)) ++ rest
